@@ -1,8 +1,16 @@
-import PromModel.Tsdb.DbModel
+import PromProofs.DbRun
 /-
   C01 — Queries return exactly the committed, undeleted samples.
-  Property theorems only. The statement is `Prom.Db.holds` (DbModel.lean): the reference store built
-  from the observed acknowledgements must equal every query result.
+  Property theorems only (helper lemmas: PromProofs/Db*.lean). The statement is `Prom.Db.holds`
+  (DbModel.lean): the reference store built from the observed acknowledgements must equal every
+  query result.
+
+  Proof architecture (refinement): `Inv d` (invariant of the mechanism state), `LastOk d` (the
+  newest physical sample of each head series is not tombstoned, or every pending batch element of
+  that series is strictly newer), `Sim d r` (for every series the
+  visible samples of `d` are exactly `r.get i`, which is strictly increasing; pending batch and
+  open flag agree) — bundled as `Good d r`. Every operation preserves `Good`; `Good` implies that
+  a query answers exactly the reference rows.
 -/
 namespace Prom.C01
 open Prom.Db Prom.Intervals
@@ -22,5 +30,146 @@ theorem holds_example :
     let ops : List Op := [.begin, .app 0 10 1, .app 0 10 2, .app 1 250 3, .commit, .q 0 300,
       .del 5 15 (some 0), .q 0 300, .begin, .app 0 400 4, .commit, .compact, .reopen, .q (-5) 1000]
     holds (ops.zip (Db.run { cfg := ⟨100, 0⟩ } ops)) = true := by decide
+
+/-! ### The full statement is false (finding F28; the real tsdb.DB behaves the same)
+
+  Deleting the newest sample of a series leaves it physically in the head chunk under a tombstone.
+  Re-appending the identical `(t, v)` is then acknowledged by `Append` and `Commit` (`appendable`
+  treats it as a harmless duplicate of the newest physical sample and stores nothing), but the
+  tombstone keeps hiding it: an acknowledged, committed, never-again-deleted sample is not returned. -/
+
+def f28_history : List Op :=
+  [.begin, .app 0 10 1, .commit, .del 0 20 none, .begin, .app 0 10 1, .commit, .q 0 100]
+
+/-- The run: every append/commit is acknowledged and the final query is empty. -/
+theorem f28_run_witness :
+    Db.run { cfg := ⟨100, 0⟩ } f28_history = [.ok, .ok, .ok, .ok, .ok, .ok, .ok, .rows []] := by rfl
+
+/-- …which violates the statement at step 7 (the reference expects `s0 = [10:1]`). -/
+theorem f28_violates_witness :
+    holdsFrom {} (f28_history.zip (Db.run { cfg := ⟨100, 0⟩ } f28_history)) 0 = some 7 := by decide
+
+theorem query_exact_full_witness : ¬ query_exact_full := by
+  intro h
+  have := h ⟨100, 0⟩ f28_history rfl (by decide)
+  revert this
+  decide
+
+/-! ### (a) queries -/
+
+/-- In a state related to the reference, a range query returns exactly the reference rows. -/
+theorem query_matches (d : Db) (r : Ref) (hI : Inv d) (hS : Sim d r) (a b : Int) :
+    d.query a b = r.query a b := Db.query_matches hI hS a b
+
+/-! ### (b) transactions -/
+
+theorem begin_preserves (d : Db) (r : Ref) (hG : Good d r) :
+    Good d.begin { r with pending := [], open_ := true } := Db.begin_preserves hG
+
+/-- `Append`: the sample joins the pending batch iff it was acknowledged. -/
+theorem append_preserves (d : Db) (r : Ref) (hG : Good d r) (i : Nat) (t : Int) (v : Nat)
+    (ht : MinI64 ≤ t ∧ t < MaxI64) (hres : ¬ resubmits d i t) :
+    Good (d.append i t v).1
+      (if (outOfRes (d.append i t v).2).isOk = true ∧ r.open_ = true then
+        { r with pending := r.pending ++ [(i, ⟨t, v⟩)] } else r) := Db.append_preserves hG i t v ht hres
+
+/-- `Commit` (the heart): per batch element the commit-time re-check + `memSeries.append` store the
+    sample iff it is strictly newer than the newest reference sample of its series. Uses `LastOk`
+    (part of `Good`) — what an F28 re-submission breaks at `Append` time. -/
+theorem commit_preserves (d : Db) (r : Ref) (hG : Good d r) :
+    Good d.commit.1 (if (outOfRes d.commit.2).isOk then r.commit else { r with pending := [], open_ := false }) :=
+  Db.commit_preserves hG
+
+theorem rollback_preserves (d : Db) (r : Ref) (hG : Good d r) :
+    Good d.rollback.1 { r with pending := [], open_ := false } := Db.rollback_preserves hG
+
+/-! ### (c) head compaction, (e) tombstone cleaning -/
+
+/-- `DB.Compact` with no appender open: the visible samples below the block boundary move into a
+    block and leave the head; the reference (hence every query result) is unchanged. -/
+theorem compact_preserves (d : Db) (r : Ref) (hG : Good d r) (happ : d.app = none) :
+    Good d.compact r ∧ d.compact.app = none := Db.compact_preserves hG happ
+
+theorem cleantomb_preserves (d : Db) (r : Ref) (hG : Good d r) : Good d.cleanTombstones r :=
+  Db.cleantomb_preserves hG
+
+/-! ### (d) deletion -/
+
+/-- `DB.Delete a b sel`: exactly the samples of the selected series with `a ≤ t ≤ b` disappear
+    (the reference after the step is `r.del a b sel`, which is what `Ref.step` computes). Coverage of
+    `Intervals.add` is the explicit hypothesis `CoverHyp d` (for the tombstone lists present in `d`,
+    including the inverted intervals `Head.Delete` produces); C20 develops it. -/
+theorem delete_exact (d : Db) (r : Ref) (hI : Inv d) (hS : Sim d r) (hC : CoverHyp d)
+    (a b : Int) (sel : Option Nat) :
+    Inv (d.delete a b sel) ∧ Sim (d.delete a b sel) (r.del a b sel) ∧
+      Ref.step r (.del a b sel) .ok = some (r.del a b sel) :=
+  ⟨(Db.delete_preserves hI hS hC a b sel).1, (Db.delete_preserves hI hS hC a b sel).2, rfl⟩
+
+/-- `CoverHyp` is satisfiable: a state without tombstones (adding to the empty set is exact). -/
+example : CoverHyp { cfg := ⟨100, 0⟩ } := ⟨fun s hs => by simp at hs, fun b hb => by simp at hb⟩
+
+/-- The hypotheses are satisfiable: the empty database is related to the empty reference… -/
+theorem good_init (cfg : Cfg) (h0 : cfg.oooWin = 0) (h1 : 0 < cfg.chunkRange) :
+    Good { cfg := cfg } {} := Db.good_init cfg h0 h1
+
+/-- …and so is every state reached by a covered history (here: two series, a commit, a compaction). -/
+example : ∃ r, Good (Db.after { cfg := ⟨100, 0⟩ } [.begin, .app 0 10 1, .commit]) r := by
+  have h0 := Db.good_init ⟨100, 0⟩ rfl (by decide)
+  have h1 := Db.begin_preserves h0
+  have h2 := Db.append_preserves h1 0 10 1 (by decide) (by rintro ⟨l, hl, _⟩; simp [Db.begin, Db.getSeries, Db.initialized] at hl)
+  exact ⟨_, Db.commit_preserves h2⟩
+
+/-! ### Assembly
+
+  `query_exact_partial_noreopen`: the statement for every history whose run satisfies `runOk`
+  (side conditions evaluated on the model state before each step, see `Db.stepOk`):
+    * no `reopen`;
+    * appended timestamps are int64 values other than the `MaxInt64` sentinel;
+    * no append re-submits the timestamp of its series' newest physical sample while that sample
+      is hidden by a tombstone (`resubmits`, i.e. finding F28 — `query_exact_full_witness` shows the
+      statement is false without this);
+    * `del` and `compact` only while no appender is open (the real `DB.Compact` waits for overlapping
+      appenders; a `del` between `app` and `commit` is another way to produce F28; inside an open
+      transaction the model can be driven to a mismatch by `compact`, e.g. `begin, app 1 -50,
+      app 1 60, app 0 -50, app 0 101, commit, begin, compact, app 1 55, commit, q` on chunkRange 100,
+      which is not a history of the real system);
+    * at each `del`, the coverage property of `Intervals.add` for the tombstone lists in the state.
+  `query_exact_partial_nodel_noreopen`: for histories without `del`/`reopen` all side conditions are
+  syntactic (`opOk`, `wfFrom`).
+  Missing for a corrected full statement: `reopen` (needs a WAL invariant: replaying the logged
+  records ≥ the blocks' max time rebuilds the same visible head samples), and discharging
+  `CoverHyp` (C20). -/
+theorem query_exact_partial_noreopen (cfg : Cfg) (ops : List Op)
+    (h0 : cfg.oooWin = 0) (h1 : 0 < cfg.chunkRange) (hrun : runOk { cfg := cfg } ops) :
+    holds (ops.zip (Db.run { cfg := cfg } ops)) = true := by
+  unfold holds
+  rw [holdsFrom_runOk ops _ _ 0 (Db.good_init cfg h0 h1) hrun]
+  rfl
+
+/-- `runOk` is satisfiable: a history with a deletion (and, by `Db.runOk_of_syntactic`, every history
+    satisfying the syntactic conditions of the next theorem). -/
+example : runOk { cfg := ⟨100, 0⟩ } [.begin, .commit, .del 0 20 none, .q 0 100] := by
+  refine ⟨trivial, trivial, ⟨rfl, ?_⟩, trivial, trivial⟩
+  exact ⟨fun s hs => absurd hs List.not_mem_nil, fun b hb => absurd hb List.not_mem_nil⟩
+
+theorem query_exact_partial_nodel_noreopen (cfg : Cfg) (ops : List Op)
+    (h0 : cfg.oooWin = 0) (h1 : 0 < cfg.chunkRange)
+    (hops : ∀ op ∈ ops, opOk op ∧ (∀ a b sel, op ≠ .del a b sel) ∧ op ≠ .reopen)
+    (hwf : wfFrom false ops = true) :
+    holds (ops.zip (Db.run { cfg := cfg } ops)) = true := by
+  unfold holds
+  rw [holdsFrom_run ops _ _ 0 (Db.good_init cfg h0 h1) (fun s hs => by simp at hs) hops hwf]
+  rfl
+
+/-- The hypotheses of the partial theorem are satisfied by a non-trivial history. -/
+example :
+    let ops : List Op := [.begin, .app 0 10 1, .app 0 10 2, .app 1 250 3, .commit, .q 0 300,
+      .begin, .app 0 400 4, .commit, .compact, .cleantomb, .q (-5) 1000, .win]
+    (∀ op ∈ ops, opOk op ∧ (∀ a b sel, op ≠ .del a b sel) ∧ op ≠ .reopen) ∧ wfFrom false ops = true := by
+  refine ⟨?_, by decide⟩
+  intro op hop
+  simp only [List.mem_cons, List.mem_nil_iff, or_false] at hop
+  rcases hop with rfl | rfl | rfl | rfl | rfl | rfl | rfl | rfl | rfl | rfl | rfl | rfl | rfl <;>
+    exact ⟨by simp [opOk, MinI64, MaxI64], by intros; simp, by simp⟩
 
 end Prom.C01
